@@ -2,8 +2,8 @@
 from harness import exchange_check as xc
 
 TRUSTED_EXTRA = xc.TRUSTED_EXTRA
-PLAN = [("compete", "small", 30, 600), ('mixed', 'medium', 60, 1500), ('loans', 'medium', 50, 1200), ('fees', 'small', 40, 800), ('minfee', 'small', 25, 400),
-        ('repayboundary', 'small', 20, 200), ('boundary', 'small', 20, 300), ('dust', 'small', 16, 300)]
+PLAN = [('thousand', 'small', 1, 3), ("compete", "small", 30, 600), ('mixed', 'medium', 60, 1500), ('loans', 'medium', 50, 1200), ('fees', 'small', 40, 800), ('minfee', 'small', 25, 400),
+        ('repayboundary', 'small', 20, 200), ('boundary', 'small', 20, 300), ('dust', 'small', 16, 300), ('neginit', 'small', 24, 400)]
 
 
 def run(chk):
